@@ -1484,7 +1484,14 @@ fn generate(rng: &mut Rng, tier: &str, w: &mut CaseWriter) {
         };
         let qual = match rng.below(3) { 0 => ".".to_string(), _ => { let res = rng.chance(1, 10); gen_float(rng, res).to_string() } };
         let nid = *rng.pick(&[0usize, 0, 1, 2, 3]);
-        let ids: Vec<String> = (0..nid).map(|_| if rng.chance(1, 15) { hex(rng.pick(&["", "a;b", "."]).as_bytes()) } else { hex(gen_word(rng, 1, 9).as_bytes()) }).collect();
+        // the IDs of a RecordBuf are a set: no duplicates
+        let mut ids: Vec<String> = Vec::new();
+        for _ in 0..nid {
+            let t = if rng.chance(1, 15) { hex(rng.pick(&["", "a;b", "."]).as_bytes()) } else { hex(gen_word(rng, 1, 9).as_bytes()) };
+            if !ids.contains(&t) {
+                ids.push(t);
+            }
+        }
         let bases = |rng: &mut Rng| -> String { let n = rng.range(1, 20); (0..n).map(|_| *rng.pick(&['A', 'C', 'G', 'T'])).collect() };
         let refb = bases(rng);
         let nalt = *rng.pick(&[0usize, 1, 1, 2, 3]);
